@@ -74,7 +74,10 @@ StepOf(n, d) ==
   IF ~lastG[1] \/ e.sin = NaNKey THEN {}
   ELSE IF n = 0 THEN (IF e.sin # lastG[2] \/ e.tri # lastG[3] THEN {<<"C10", "read-disturbs">>} ELSE {})
   ELSE IF n = 1 THEN
-         (IF ~Near(e.sin, lastG[2], SlopeBound(d) + 6) THEN {<<"C12", "sine-step">>} ELSE {})
+         \* + two f32 ulps of the value (2 units of 2^-24 above 0.5, at most 1 below) + 2 for the rounding of
+         \* the two logged Q24 images
+         (IF ~Near(e.sin, lastG[2], SlopeBound(d) + 2 + (IF Abs(e.sin) >= Half THEN 2 ELSE 1))
+            THEN {<<"C12", "sine-step">>} ELSE {})
     \cup (IF ~Near(e.tri, lastG[3], d) THEN {<<"C12", "triangle-step">>} ELSE {})
   ELSE {}
 
